@@ -640,8 +640,10 @@ Proof.
     destruct ko as [k|]; [|some H; exact I2].
     destruct (negb (x_live (s_mex s k))); [some H; exact I2|].
     destruct (x_ctx (s_mex s k)); [some H; apply inv_rel_tr; assumption|].
+    destruct (x_dropped (s_mex s k)); [some H; apply inv_rel_tr; assumption|].
     destruct (mex_room (s_mex s k)); [some H; apply inv_push_mex_tr; assumption|].
-    destruct (x_errn (s_mex s k)); [some H; apply inv_rel_tr; assumption|discriminate].
+    destruct (x_errn (s_mex s k)); [|discriminate]. some H.
+    apply inv_rel_tr; [apply inv_set_mex; [exact I2|reflexivity]|exact O2].
   - (* LRelaySend *)
     destruct (inv_get_acc S_rf_get (PReader c) s Logic.I I) as [I1 O1].
     destruct (send_room s d); some H; [apply inv_push_send_tr|apply inv_rel_tr]; try exact I1; rewrite O1; exact Logic.I.
@@ -1238,9 +1240,12 @@ Proof.
     assert (C2 : CInv s1 (Some (s_next s))) by (apply cinv_misc; exact C1).
     assert (O2 : transient (O s1 (s_next s))) by (unfold s1, O in *; cbn in *; rewrite O1; exact Logic.I).
     destruct (x_ctx (s_mex s k)); [some H; apply cinv_rel_tr; assumption|].
+    destruct (x_dropped (s_mex s k)); [some H; apply cinv_rel_tr; assumption|].
     destruct (mex_room (s_mex s k)).
     + some H. apply cinv_push_mex_tr; [assumption|assumption|]. unfold s1. cbn. apply C. exact NL.
-    + destruct (x_errn (s_mex s k)); [some H; apply cinv_rel_tr; assumption|discriminate].
+    + destruct (x_errn (s_mex s k)); [|discriminate]. some H.
+      apply cinv_rel_tr; [|exact O2].
+      apply cinv_set_mex; [exact C2|reflexivity|reflexivity|]. cbn. intros _. exact NL.
   - (* LRelaySend *)
     destruct (inv_get_acc S_rf_get (PReader c) s Logic.I I) as [I1 O1].
     pose proof (cinv_get_acc S_rf_get (PReader c) s Logic.I I C) as C1.
